@@ -5,7 +5,8 @@
    Line classes: plain, quotes, backslash, backquote, percent (%v %%), atname (@name inside the line), unicode, blank
    (an empty // line, interior only), namefirst (the line starts with the type's own name), namedouble (... and the text after
    the name starts with the name again), tagplus (+k=v) and tagat
-   (@k v) - the last two are tag lines and never part of the documentation.
+   (@k v) - the last two are tag lines and never part of the documentation; colon / goword: ordinary text that starts like a
+   directive ("host:port ...", "go: ...").
    The harness writes real Go source for the case (recording the text of every line, and that text with a leading type
    name removed), runs the real generator through gengo, compiles the package with a probe program and records what
    RuntimeDoc(...) answers. The specification computes what it must answer from the recorded source lines.          *)
